@@ -16,6 +16,22 @@ TYPES = ["Data::S", "Data::E", "local", "int32", "Vec[int32]", "Ref[int32]", "(i
 OTHER_K = {"int32": 1, "Vec[int32]": 2, "Ref[int32]": 3, "(int32, bool)": 4, "string": 5}
 
 
+# the ways a package can name something of another package (label, source with {k} = number, {t} = target package)
+REF_KINDS = [
+    ("struct literal", "fn use{k}() -> int32 {{\n    let q = {t}::L{t} {{ w: 1 }};\n    q.w\n}}"),
+    ("function call", "fn use{k}() -> int32 {{\n    {t}::fn_{t}()\n}}"),
+    ("type in a signature", "fn use{k}(q: {t}::L{t}) -> int32 {{\n    1\n}}"),
+    ("type in a let annotation", "fn use{k}() -> int32 {{\n    let q: Vec[{t}::L{t}] = vec_new();\n    vec_len(q)\n}}"),
+    ("enum variant", "fn use{k}() -> int32 {{\n    match {t}::E{t}::V{t} {{ {t}::E{t}::V{t} => 1, {t}::E{t}::W{t}(n) => n }}\n}}"),
+    ("static method path", "fn use{k}() -> int32 {{\n    let q = {t}::L{t}::make();\n    1\n}}"),
+    ("trait in a bound", "fn use{k}[T: {t}::Tr{t}](x: T) -> int32 {{\n    1\n}}"),
+    ("trait static call", "fn use{k}(x: {t}::L{t}) -> int32 {{\n    {t}::Tr{t}::tm(x)\n}}"),
+    ("trait object type", "fn use{k}(d: dyn {t}::Tr{t}) -> int32 {{\n    1\n}}"),
+    ("struct field type", "struct U{k} {{ inner: {t}::L{t} }}"),
+    ("impl of the foreign trait", "struct V{k} {{ z: int32 }}\nimpl {t}::Tr{t} for V{k} {{\n    fn tm(self: V{k}) -> int32 {{ self.z }}\n}}"),
+]
+
+
 def ty_src(t, pkg):
     if t == "local":
         return "L%s" % pkg
@@ -71,7 +87,21 @@ def gen_projects(run):
                     imports[src_pkg] = [tgt] if imported else []
                 if src_pkg == "Main" and not imported:
                     imports["Main"] = [x for x in PK if x not in ("Main", tgt)]
-                ps.append({"imports": imports, "impls": [], "refs": [(src_pkg, tgt)]})
+                for kind in range(len(REF_KINDS)):
+                    ps.append({"imports": imports, "impls": [], "refs": [(src_pkg, tgt, kind)]})
+    # the target is imported by a package the source imports, but not by the source itself
+    for src_pkg in PK:
+        for mid in PK:
+            for tgt in PK:
+                if len({src_pkg, mid, tgt}) < 3 or "Main" in (mid, tgt):
+                    continue
+                for kind in range(len(REF_KINDS)):
+                    imports = {p: [] for p in PK}
+                    imports[mid] = [tgt]
+                    imports[src_pkg] = [mid]
+                    if src_pkg != "Main":
+                        imports["Main"] = [src_pkg]
+                    ps.append({"imports": imports, "impls": [], "refs": [(src_pkg, tgt, kind)]})
     n_sys = len(ps)
     n = 40 if run.tier == "quick" else 500
     for _ in range(n):
@@ -80,8 +110,8 @@ def gen_projects(run):
             cands = [x for x in PK if x != p and x != "Main"]
             imports[p] = rng.sample(cands, rng.randint(0, len(cands)))
         impls = [(rng.choice(PK), rng.choice(["Traits", "self"]), rng.choice(TYPES)) for _ in range(rng.randint(1, 3))]
-        refs = [(rng.choice(PK), rng.choice([x for x in PK if x != "Main"])) for _ in range(rng.randint(0, 2))]
-        refs = [(a, b) for a, b in refs if a != b]
+        refs = [(rng.choice(PK), rng.choice([x for x in PK if x != "Main"]), rng.randrange(len(REF_KINDS))) for _ in range(rng.randint(0, 2))]
+        refs = [(a, b, k) for a, b, k in refs if a != b]
         ps.append({"imports": imports, "impls": impls, "refs": refs})
     return ps, n_sys
 
@@ -107,9 +137,12 @@ def write_project(root, p):
             else:
                 tr = "Show" if pkg == "Traits" else "Traits::Show"
                 s += "impl %s for %s {\n    fn show(self: %s) -> string { \"s%d\" }\n}\n\n" % (tr, ts, ts, k)
-        for k, (rp, tgt) in enumerate(p["refs"]):
+        # what other packages may refer to: a function, an enum, an inherent static method, a trait with an impl
+        s += "fn fn_%s() -> int32 { 1 }\n\nenum E%s { V%s, W%s(int32) }\n\nimpl L%s {\n    fn make() -> L%s { L%s { w: 2 } }\n}\n\n" % (pkg, pkg, pkg, pkg, pkg, pkg, pkg)
+        s += "trait Tr%s {\n    fn tm(Self) -> int32;\n}\n\nimpl Tr%s for L%s {\n    fn tm(self: L%s) -> int32 { self.w }\n}\n\n" % (pkg, pkg, pkg, pkg)
+        for k, (rp, tgt, kind) in enumerate(p["refs"]):
             if rp == pkg:
-                s += "fn use%d() -> int32 {\n    let q = %s::L%s { w: 1 };\n    q.w\n}\n\n" % (k, tgt, tgt)
+                s += REF_KINDS[kind][1].format(k=k, t=tgt) + "\n\n"
         if pkg == "Main":
             s += "fn main() {\n    ()\n}\n"
             with open(os.path.join(root, "main.gom"), "w") as f:
@@ -189,7 +222,7 @@ def check(run):
             "{| im_pkg := %d; im_trait_pkg := %d; im_trait := %d; im_ty := %s |}" % (CODE[ip], CODE[ip] if tp == "self" else 3, (20 + CODE[ip]) if tp == "self" else 7, ty_model(t, ip))
             for ip, tp, t in p["impls"] if ip in live
         )
-        refs = "[%s]" % "; ".join("(%d, %d)" % (CODE[a], CODE[b]) for a, b in p["refs"] if a in live)
+        refs = "[%s]" % "; ".join("(%d, %d)" % (CODE[a], CODE[b]) for a, b, _ in p["refs"] if a in live)
         rv = real_verdict(r)
         reals.append(rv)
         rows.append("((%s, %s, %s), %d)" % (g, impls, refs, rv))
@@ -224,7 +257,7 @@ def check(run):
         keys = [(("self" + ip) if tp == "self" else "Traits", t if t != "local" else "local" + ip) for ip, tp, t in p["impls"] if ip in live]
         if len(set(keys)) < len(keys):
             wits.append({"kind": "two implementations of one trait for one type accepted", "project": p, "files": files_of(p)})
-        for a, b in p["refs"]:
+        for a, b, _ in p["refs"]:
             if a in live and b not in p["imports"][a]:
                 wits.append({"kind": "package %s names %s::L%s without importing %s, accepted" % (a, b, b, b), "project": p, "files": files_of(p)})
     hist = {}
